@@ -1,10 +1,104 @@
 import FM.Lemmas.Render
+import FM.Lemmas.BlockStart
+import FM.Lemmas.Sentence
+/-
+  C01 — Formatting preserves the meaning of the document.
+
+  (i) position-dependent part: a word that wrapping puts at a line start must not start a block —
+      theorems over the greedy fill / sentence fold and the SPEC `interruptsPara`;
+  (ii) position-independent part: renderer state discipline on the render model
+      (tied to MarkdownNormalizer by op `render`).
+  Marko's parser is a parameter (see DESIGN §4.3); the end-to-end reading oracle covers it.
+-/
 namespace FM.C01
 open FM
+
+/-! ### (ii) renderer state discipline -/
 
 /-- FRAME: every block hands `_second_prefix` and `_current_list_tight` back unchanged,
 for every tree, wrapper and state (so nesting state cannot leak out of a container). -/
 theorem FRAME (cfg : RCfg) (st : RState) (b : Block) : Frame st (renderBlock cfg st b).2 :=
   (frame_all cfg).1 st b
+
+theorem FRAME_blocks (cfg : RCfg) (st : RState) (bs : List Block) : Frame st (renderBlocks cfg st bs).2 :=
+  (frame_all cfg).2.1 st bs
+
+/-! ### (i) no hazard at introduced line heads -/
+
+/-- The set of head words the escape covers. -/
+def EscCovers (w : Word) : Prop := isSpecialWord w = true ∨ isNumeralWord w = true
+
+/-- NH_handled: wherever the escape applies, the escaped line cannot start a list, heading,
+quote, rule, setext underline or fence — for every rest of the line. -/
+theorem NH_handled (w : Word) (rest : Line) (h : EscCovers w) :
+    interruptsPara (escapeWord w :: rest) = false :=
+  escaped_head_safe w rest h
+
+/-- NH_classify: a line that interrupts a paragraph has a head the escape covers, or is one of the
+kinds it does not cover (quote marker glued to text, rule / setext line, fence). -/
+theorem NH_classify (w : Word) (rest : Line) (h : interruptsPara (w :: rest) = true) :
+    EscCovers w ∨ isQuoteHead w = true ∨ isRuleLine '*' (w :: rest) = true ∨
+      isRuleLine '-' (w :: rest) = true ∨ isRuleLine '_' (w :: rest) = true ∨
+      isSetextLine (w :: rest) = true ∨ isFenceHead w rest = true := by
+  simp only [interruptsPara, Bool.or_eq_true] at h
+  rcases h with ((((((((h | h) | h) | h) | h) | h) | h) | h) | h)
+  · left; left
+    simp only [isAtxHead, allCh, Bool.and_eq_true] at h
+    simp [isSpecialWord, h.1.1, h.1.2]
+  · left; left
+    simp only [isBulletHead, Bool.and_eq_true, Bool.or_eq_true] at h
+    rcases h.1 with ((h1 | h1) | h1) <;> simp [isSpecialWord, h1]
+  · left; right
+    simp only [isOrderedHead, Bool.and_eq_true, Bool.or_eq_true, beq_iff_eq] at h
+    rcases h.1 with h1 | h1 <;> subst h1 <;> decide
+  · right; left; exact h
+  · right; right; left; exact h
+  · right; right; right; left; exact h
+  · right; right; right; right; left; exact h
+  · right; right; right; right; right; left; exact h
+  · right; right; right; right; right; right; exact h
+
+/-- NH for the greedy fill (Markdown mode): in every output line after the first, the head went
+through the escape; if that line still interrupts the paragraph, the escape did not apply to it. -/
+theorem NH_fill (W c0 c1 : Nat) (ws : List Word) :
+    ∀ l ∈ (fill W c1 true c0 ws).tail, ∃ h t, l = escapeWord h :: t ∧
+      (EscCovers h → interruptsPara l = false) := by
+  have hl := fill_linesOf W c0 c1 true ws
+  generalize fill W c1 true c0 ws = out at hl
+  have key : ∀ (first : Bool) (ws : List Word) (out : List Line), LinesOf escapeWord first ws out →
+      ∀ l ∈ (if first then out.tail else out), ∃ h t, l = escapeWord h :: t ∧
+        (EscCovers h → interruptsPara l = false) := by
+    intro first ws out h
+    induction h with
+    | nil first => intro l hl; cases first <;> simp at hl
+    | cons first h t rest ls _ ih =>
+      intro l hl
+      cases first with
+      | true => simpa using ih l (by simpa using hl)
+      | false =>
+        simp only [Bool.false_eq_true, if_false] at hl ih
+        rcases List.mem_cons.1 hl with rfl | hl
+        · exact ⟨h, t, rfl, fun hc => NH_handled h t hc⟩
+        · exact ih l hl
+  exact key true ws out (by simpa [escOf] using hl)
+
+/-- The full-strength statement is FALSE of the code and of its model: `---` is not covered.
+`aaaa bbbb ---` at width 10 puts `---` alone on the second line — a setext underline. -/
+theorem NH_false :
+    ∃ l ∈ (fill 10 0 true 0 ["aaaa".toList, "bbbb".toList, "---".toList]).tail,
+      interruptsPara l = true := by decide
+
+/-- … and in sentence mode the first word of a sentence is never escaped, even when it starts a
+line: `… here. - and then` becomes a list item. -/
+theorem NH_sentence_false :
+    ∃ l ∈ (wrapBySentence { W := 88, i0 := 0, s0 := 0, minLen := 20, md := true }
+        [("This".toList, false), ("is".toList, false), ("a".toList, false), ("long".toList, false),
+         ("enough".toList, false), ("sentence".toList, false), ("here.".toList, true),
+         ("-".toList, false), ("and".toList, false), ("then".toList, true)]).tail,
+      interruptsPara l = true := by decide
+
+/-- non-vacuity of NH_handled: a covered word. -/
+example : (isSpecialWord "12)".toList || isNumeralWord "12)".toList) = true ∧
+    interruptsPara (escapeWord "1.".toList :: ["x".toList]) = false := by decide
 
 end FM.C01
